@@ -112,6 +112,7 @@ struct ExecImage {
   int cwd = 0;
   std::map<int, FdSnap> fds;  // after close-on-exec processing
   uint64_t mask = 0;
+  unsigned umask_ = 022;
   uint8_t disp[65] = { 0 };   // after exec reset
   int64_t t_ns = 0;
   bool forked_only = false;   // fork mode: no exec happened
@@ -145,6 +146,7 @@ struct Proc {
   uint64_t mask = 0;
   uint8_t disp[65] = { 0 };
   uint64_t rlim_cur = 1024, rlim_max = 4096;
+  unsigned umask_ = 022;
   int wstatus = 0;
   ExecImage *image = nullptr;
   // script task state
@@ -323,7 +325,7 @@ struct Kernel {
   void reset(const World &w, uint64_t salt);
 
   // ---- vfs
-  int vfs_add(int parent, const std::string &name, VNode::K kind);
+  int vfs_add(int parent, std::string name, VNode::K kind);
   int vfs_lookup(int start, const std::string &path, int *err) const;
   std::string vfs_path(int node) const;
   int vfs_mkdirs(int start, int depth, size_t comp_len, char fill);
